@@ -60,6 +60,8 @@ class set_type(DataStreamProcessor):
     def process_datapackage(self, dp):
         dp = super(set_type, self).process_datapackage(dp)
         self.matcher = ResourceMatcher(self.resources, dp)
+        # found anew on every run: the same step may be run again
+        self.field_names = dict()
         added = False
         for res in dp.descriptor['resources']:
             if self.matcher.match(res['name']):
